@@ -427,6 +427,16 @@ def cnf_formula(rng):
                   ('lt', None, (('minus', None, (i1, i0)), B.Int(0))),
                   ('le', None, (B.Int(0), ('minus', None, (i0, i1)))),
                   ('eq', None, (('plus', None, (i0, B.Int(1))), i1))]
+    # bit-vector relations against every small constant, both sides
+    # (boundary rules of the simplifier: u< 0, u<= max, s< min ...)
+    if rng.random() < 0.4:
+        rel = rng.choice(['bvult', 'bvule', 'bvslt', 'bvsle'])
+        c = rng.randrange(4)
+        x = ('bvadd', None, (b2[0], b2[1])) if rng.random() < 0.3 else b2[0]
+        atoms += [(rel, None, (x, B.BVc(c, 2))),
+                  (rel, None, (B.BVc(c, 2), x)),
+                  (rel, None, (b1[0], B.BVc(c % 2, 1))),
+                  (rel, None, (B.BVc(c % 2, 1), b1[1]))]
     pool = []
 
     def go(d):
